@@ -39,7 +39,11 @@ pub(crate) fn add(ctx: &mut TulispContext) {
 
     fn cond(ctx: &mut TulispContext, args: &TulispObject) -> Result<TulispObject, Error> {
         for item in args.base_iter() {
-            if item.car_and_then(|x| eval_and_then(ctx, x, |x| Ok(x.is_truthy())))? {
+            let test = item.car_and_then(|x| ctx.eval(x))?;
+            if test.is_truthy() {
+                if item.cdr()?.null() {
+                    return Ok(test);
+                }
                 return item.cdr_and_then(|x| ctx.eval_progn(x));
             }
         }
